@@ -189,6 +189,9 @@ func init() {
 				case "rreset":
 					w.m.HandleStreamReset(id, 1)
 					return w.out("ok", "-", "-")
+				case "lremove":
+					w.m.RemoveStream(id)
+					return w.out("ok", "-", "-")
 				}
 				return w.out("unknown", "-", "-")
 			}
@@ -248,6 +251,9 @@ func init() {
 				return w.out("ok", "-", w.collect(st))
 			case "rreset":
 				w.m.HandleStreamReset(id, 1)
+				return w.out("ok", "-", w.collect(st))
+			case "lremove": // Manager.RemoveStream, the entry point meshConn.Close uses
+				w.m.RemoveStream(id)
 				return w.out("ok", "-", w.collect(st))
 			case "read":
 				if st.reader == nil {
@@ -335,13 +341,34 @@ func c18Gen(w *bufio.Writer, seed int64, tier string) {
 		emit("d", 1, "n")
 	}
 	fmt.Fprintf(w, "read 1\nframe 1 1 beef h\nread 1\n")
+	// more chunks than the buffer holds over the life of a stream, drained by interleaved reads
+	fmt.Fprintf(w, "reset\naccept 1\n")
+	for i := 0; i < 150; i++ {
+		emit("d", 1, "n")
+		if i >= 60 {
+			fmt.Fprintf(w, "read 1\n")
+		}
+	}
+	fmt.Fprintf(w, "frame 1 1 - h\n")
+	for i := 0; i < 62; i++ {
+		fmt.Fprintf(w, "read 1\n")
+	}
+	idPool := []uint64{1, 3, 2, 1<<63 - 1, 1 << 63, ^uint64(0)}
+	bigSizes := []int{1, 16383, 16384, 16385}
 	for i := 0; i < nRandom; i++ {
 		fmt.Fprintf(w, "reset\n")
-		ids := []int{1}
-		if r.chance(50) {
-			ids = append(ids, 3)
+		ids := []uint64{idPool[r.intn(len(idPool))]}
+		for r.chance(45) && len(ids) < 4 {
+			c := idPool[r.intn(len(idPool))]
+			dup := false
+			for _, x := range ids {
+				dup = dup || x == c
+			}
+			if !dup {
+				ids = append(ids, c)
+			}
 		}
-		opening := map[int]bool{}
+		opening := map[uint64]bool{}
 		for _, id := range ids {
 			if r.chance(25) {
 				fmt.Fprintf(w, "openreq %d\n", id)
@@ -350,7 +377,11 @@ func c18Gen(w *bufio.Writer, seed int64, tier string) {
 				fmt.Fprintf(w, "accept %d\n", id)
 			}
 		}
-		n := 1 + r.intn(10)
+		n := 1 + r.intn(12)
+		if r.chance(4) {
+			n = 40 + r.intn(80) // long history on the same streams
+		}
+		buffered := map[uint64]int{}
 		for j := 0; j < n; j++ {
 			id := ids[r.intn(len(ids))]
 			if opening[id] && r.chance(60) {
@@ -362,27 +393,52 @@ func c18Gen(w *bufio.Writer, seed int64, tier string) {
 			if r.chance(35) {
 				mode = "n"
 			}
+			frame := func(fin int, withData bool) {
+				if buffered[id] >= 60 { // never fill the buffer without a reader (PushData would block)
+					fmt.Fprintf(w, "read %d\n", id)
+					return
+				}
+				pl := "-"
+				if withData {
+					payload++
+					pl = fmt.Sprintf("%04x", payload&0xffff)
+					if r.chance(3) {
+						pl = hexTok(r.bytes(bigSizes[r.intn(len(bigSizes))]))
+					}
+					buffered[id]++
+				}
+				fmt.Fprintf(w, "frame %d %d %s %s\n", id, fin, pl, mode)
+			}
 			switch x := r.intn(100); {
 			case x < 22:
-				emit("d", id, mode)
-			case x < 40:
-				emit("df", id, mode)
-			case x < 50:
-				emit("f", id, mode)
-			case x < 72:
+				frame(0, true)
+			case x < 38:
+				frame(1, true)
+			case x < 46:
+				frame(1, false)
+			case x < 48:
+				frame(0, false)
+			case x < 68:
 				fmt.Fprintf(w, "read %d\n", id)
-			case x < 82:
+			case x < 77:
 				if !opening[id] {
 					fmt.Fprintf(w, "closewrite %d\n", id)
 				}
-			case x < 88:
+			case x < 83:
 				if !opening[id] {
 					fmt.Fprintf(w, "close %d\n", id)
 				}
-			case x < 93:
-				emit("c", id, mode)
+			case x < 88:
+				fmt.Fprintf(w, "rclose %d\n", id)
+			case x < 92:
+				fmt.Fprintf(w, "rreset %d\n", id)
+			case x < 95:
+				fmt.Fprintf(w, "lremove %d\n", id)
 			case x < 97:
-				emit("r", id, mode)
+				// state left by earlier ops is reused: the id is accepted again (after close/reset or live)
+				fmt.Fprintf(w, "accept %d\n", id)
+				opening[id] = false
+				buffered[id] = 0
 			case x < 99:
 				fmt.Fprintf(w, "ack %d\n", id)
 				opening[id] = false
